@@ -99,7 +99,10 @@ def render(t, full):
         return "%s %s %s" % (sub(a, level(a) <= L_COND), sp, sub(b, level(b) < L_ASSIGN))
     if k == "INLINE_IF":
         c, a, b = t[1], t[2], t[3]
-        return "%s ? %s : %s" % (sub(c, level(c) <= L_COND), sub(a, level(a) < L_COND), sub(b, level(b) < L_COND))
+        # ?: and the assignment family form one right-associative group, as in C++: the else operand extends as far
+        # to the right as possible, so an assignment there needs no parentheses (`c ? a : b = d` is `c ? a : (b = d)`),
+        # while an inline-if that is the *left* operand of an assignment does (see the assignment case above).
+        return "%s ? %s : %s" % (sub(c, level(c) <= L_COND), sub(a, level(a) < L_COND), sub(b, level(b) < L_ASSIGN))
     if k in PREFIX:
         sp, lv = PREFIX[k]
         return "%s %s" % (sp, sub(t[1], level(t[1]) < lv))
